@@ -627,11 +627,23 @@ func (conn *Conn) Close() error {
 	if conn.die != nil {
 		conn.die()
 	}
-	// Drain both in and out channels to avoid a deadlock if the buffers
-	// have filled. See TestSendDeadlockOnFullBuffer in connection_test.go.
-	conn.drainIn()
-	conn.drainOut()
-	conn.wg.Wait()
+	// Keep draining both in and out channels until every goroutine has
+	// exited, to avoid a deadlock if the buffers have filled (or fill up
+	// again while we wait). See TestSendDeadlockOnFullBuffer in
+	// connection_test.go.
+	done := make(chan struct{})
+	go func() {
+		conn.wg.Wait()
+		close(done)
+	}()
+	for drained := false; !drained; {
+		select {
+		case <-conn.in:
+		case <-conn.out:
+		case <-done:
+			drained = true
+		}
+	}
 	conn.mu.Unlock()
 	// Dispatch after closing connection but before reinit
 	// so event handlers can still access state information.
